@@ -1,7 +1,7 @@
 (* Entry points of the correspondence check: one call per case record written by the
    harness.  Everything here is executable; nothing is proved in this file. *)
 From VJ Require Import Model.Str Model.Json Model.Ast Model.State Model.Util Model.Text
-  Model.Directive Model.Lower Model.Visitor Model.Types Spec.OutViews.
+  Model.Directive Model.Lower Model.Visitor Model.Types Spec.Plain Spec.Pragma Spec.OutViews.
 From VJ Require Import Gen.Tables.
 
 Definition jfield_d (k : String.string) (j : jv) : jv :=
@@ -80,15 +80,45 @@ Definition b2s (b : bool) : str := if b then [49] else [48].
 
 (* per-property results on this case: o<id> = the property's predicate on the REAL output,
    v<id> = the property's view of the real output equals its view of the model's output *)
+Definition is_ok_status (j : jv) : bool := match j with JStr st => sq "ok" st | _ => false end.
+
 Definition extras (c : jv) (model_out : jv) : list (str * str) :=
-  let real := dec (jfield_d "output" c) in
+  let E := env_of c in
+  let real_j := jfield_d "output" c in
+  let real := dec real_j in
   let model := dec model_out in
+  let input := dec (jfield_d "input" c) in
+  let rdiags := jstrs (jfield_d "diags" c) in
+  let alt := jfield_d "alt" c in
+  let alt_ok := is_ok_status (jfield_d "status" alt) in
   [ (s_ "oC13", match oracle_C13_codes real with
                  | [] => [49]
                  | cs => if forallb (N.eqb 11) cs then s_ "known:class_on_builtin_host"
                          else s_ "fail:" ++ dec_of_N (hd 0 (filter (fun c => negb (N.eqb c 11)) cs))
                  end);
-    (s_ "vC13", b2s (jv_eqb (view_C13 real) (view_C13 model))) ].
+    (s_ "vC13", b2s (jv_eqb (view_C13 real) (view_C13 model)));
+    (* C07: no JSX node left, or a diagnostic was reported *)
+    (s_ "oC07", b2s (jsx_free real || match rdiags with [] => false | _ => true end));
+    (s_ "vC07", b2s (Bool.eqb (jsx_free real) (jsx_free model)));
+    (* C15 *)
+    (s_ "oC15", b2s (oracle_C15 (expected_pragma E) real));
+    (s_ "vC15", b2s (jv_eqb (view_C15 real) (view_C15 model)));
+    (* C09: a JSX-free module without resolveType comes back unchanged; second pass = first *)
+    (s_ "oC09frame", b2s (if jsx_free input && negb (o_resolve_type (e_opts E))
+                          then jv_eqb real_j (jfield_d "input" c) else true));
+    (s_ "jsxfree_in", b2s (jsx_free input));
+    (s_ "oC09idem", b2s (match rdiags with
+                         | [] => jv_eqb (jfield_d "output2" c) real_j
+                         | _ => true
+                         end));
+    (* paired runs: alt = the same source under the paired configuration *)
+    (s_ "alt_same", b2s (if alt_ok then jv_eqb (jfield_d "output" alt) real_j
+                                        && strs_eqb (sort_strs (jstrs (jfield_d "diags" alt))) (sort_strs rdiags)
+                         else true));
+    (s_ "alt_strip", b2s (if alt_ok then
+                            (* main run: optimize on; alt: optimize off *)
+                            jv_eqb (enc (strip_hints real)) (jfield_d "output" alt)
+                          else true)) ].
 
 Definition run_case (c : jv) : case_result :=
   let status := jfield_d "status" c in
